@@ -2071,8 +2071,10 @@ class WebDAVApp:
 
     def _get_resource_from_environ(self, request, environ):
         path_info = request.match_info["path_info"]
-        if not path_info.startswith("/"):
-            path_info = "/" + path_info
+        # Resolve dot segments and doubled slashes once, so that the handlers
+        # which derive a container / member name or a new collection from
+        # the path all work on the location that the lookup below uses.
+        path_info = "/" + posixpath.normpath("/" + path_info).lstrip("/")
         r = self.backend.get_resource(path_info)
         return (request.path, path_info, r)
 
